@@ -8,7 +8,8 @@ from vk import refmodel as rm
 
 ID = 'C16'
 LEVEL = 'exploration'
-RULE = ('Hypothesis draws configuration and long histories with up to 5 (and a second profile with up to 12) sessions: accepted and '
+RULE = ('(Also: tables of 21..64 polling sessions of which a few - at the end, the start or the middle of the table - send CLOSE or all fall silent; some sweeps later the table holds exactly the others.) '
+        'Hypothesis draws configuration and long histories with up to 5 (and a second profile with up to 12) sessions: accepted and '
         'rejected opens, closes by every cause, clients vanishing at every point (mid-poll, '
         'mid-upgrade, mid-handshake), application calls send / get_session / save_session / '
         'session() / transport() with live, dead, rejected and foreign ids interleaved, the clock '
@@ -255,8 +256,68 @@ def summarize(ex):
             'vanished': vanished}, nt, sorted(cls)
 
 
+# -- big tables: many sessions, the ones that end sit anywhere in the table --------------------
+big_case = st.fixed_dictionaries({
+    'big_table': st.just(True),
+    'impl': st.sampled_from(['thread', 'async']),
+    'T': st.sampled_from([0.5, 1]),
+    'n': st.sampled_from([21, 35, 41, 47, 64]),
+    'ending': st.lists(st.sampled_from(['last', 'last', 'last-1', 'last-2', 'first', 'middle']),
+                       min_size=1, max_size=3, unique=True),
+    'how': st.sampled_from(['close', 'close', 'vanish-silent']),
+})
+
+
+def check_big_table(case, ctx=None):
+    """n polling sessions; a few of them end (CLOSE packet) or are simply never heard of again;
+    a few monitor sweeps later the table holds exactly the others."""
+    from vk.machine import Exec
+    T, n = case['T'], case['n']
+    I = 60 if case['how'] == 'close' else T
+    ex = Exec(case['impl'], {'ping_interval': I, 'ping_timeout': T, 'monitor_clients': True,
+                             'http_compression': False})
+    rep = dict(case)
+    try:
+        for _ in range(n):
+            ex.do({'op': 'open', 'transport': 'polling', 'autopong': False, 'autopoll': False})
+        idx = sorted(set({'last': n - 1, 'last-1': n - 2, 'last-2': n - 3, 'first': 0,
+                          'middle': n // 2}[k] for k in case['ending']))
+        if case['how'] == 'close':
+            for i in idx:
+                ex.do({'op': 'post', 's': i, 'pkts': [[1, rm.tag(None)]]})
+            ex.do({'op': 'advance', 'dt': 4 * T + 0.25})
+            gone = set(idx)
+        else:
+            # nobody answers the PING sent after I: every session is dead I + 3T later
+            ex.do({'op': 'advance', 'dt': I + 3 * T + 2 * T + 0.25})
+            gone = set(range(n))
+        table = set(ex.world.table())
+        left = [s.ord for s in ex.sessions if s.ord in gone and ex.sid_of(s) in table]
+        lost = [s.ord for s in ex.sessions if s.ord not in gone and ex.sid_of(s) not in table]
+        if left:
+            raise V(ex, 'dead-session-left-in-table',
+                    '%s|big-table|%s' % ('ended' if case['how'] == 'close' else 'silent',
+                                         'tail' if max(left) >= n - 3 else 'elsewhere'),
+                    '%d sessions, those at positions %s %s; %s later the table still holds %s' % (
+                        n, idx if case['how'] == 'close' else 'all',
+                        'sent CLOSE' if case['how'] == 'close' else 'never answered a PING',
+                        '4T' if case['how'] == 'close' else 'I + 5T', left[:8]))
+        if lost:
+            raise V(ex, 'live-session-missing-from-table', 'polling|big-table',
+                    'sessions %s never ended but are not in the table' % lost[:8])
+        if ctx:
+            ctx.case(rep, True, ['big-table', ex.impl, 'n=%d' % n, 'how-' + case['how']])
+    except Violation as v:
+        v.case = rep
+        raise
+    finally:
+        ex.close()
+
+
 def run_shard(ctx):
     quick = ctx.tier == 'quick'
+    from vk.runner import run_given
+    run_given(ctx, big_case, lambda c: check_big_table(c, ctx), max_examples=3 if quick else 40)
     history_property(ctx, ID, PROFILE, [monitor], summarize,
                      max_examples=200 if quick else 3000, steps=40 if quick else 80)
     # long runs with many sessions
@@ -266,4 +327,6 @@ def run_shard(ctx):
 
 
 def replay(case, ctx):
+    if case.get('big_table'):
+        return check_big_table(case)
     run_trace(ID, case, [monitor])
